@@ -136,6 +136,10 @@ def badtype_specs(vec):
         a += ['route rb(%s, Void, Void)' % n, '']
     elif site == 'list_item':
         a += ['struct Holder', '    h List(%s)' % n, '']
+    elif site == 'route_two':
+        a += ['route rb(%s, Void)' % n, '']
+    elif site == 'route_four':
+        a += ['route rb(%s, Void, Void, Void)' % n, '']
     return [('stone_cfg.stone', 'namespace stone_cfg\n\nstruct Route\n    x String = "a"\n'), ('nsa.stone', '\n'.join(a)),
             ('nsb.stone', 'namespace nsb\n\nannotation Fo = Omitted("f")\n\nstruct Tb\n    x Int32\n    example default\n        x = 1\n'),
             ('nsz9.stone', 'namespace nsz9\n\nroute q(Void, Void, Void)\n')]
